@@ -39,7 +39,7 @@ def _run(ev, work, thorough, seed):
         raise T.TLCError("SingleFile (truncating variant) does not satisfy the contract: %s" % res.violated)
     ev.add_tlc("SingleFile kv, TruncateAfterKv=TRUE: contract invariants hold", res)
     for act in ("DoKvBegin", "KvTail", "KvParse", "DoKvWriteFooter", "KvWriteLen", "KvWriteMagic", "KvTruncate", "KvClose"):
-        if res.coverage and not res.coverage.get(act):
+        if not res.covered(act):
             raise T.TLCError("vacuity: action %s never taken" % act)
     cfg = SF.model_cfg(os.path.join(work, "kv_mut.cfg"), vals=(0, 1, 4, 8), maxops=2, kv=True, app=False, fail=False,
                        meta=True, trunc_kv=False, trunc_app=False, restore=False, invariants=["Openable"])
